@@ -7,6 +7,7 @@ import (
 	"regexp"
 	"sort"
 	"strconv"
+	"strings"
 
 	"verif/harness/hx"
 )
@@ -160,6 +161,31 @@ func thresholds() []float64 {
 			}
 		}
 	}
+	// ... and the float literals of the anchored Go sources themselves (covers a source the translator rejects,
+	// whose generated file is then missing): literals in (0, 1) other than 0.5
+	if repo := os.Getenv("VERIF_REPO"); true {
+		if repo == "" {
+			repo = "/repo"
+		}
+		lit := regexp.MustCompile(`[^0-9A-Za-z_.]([0-9]*\.[0-9]+(?:[eE][-+]?[0-9]+)?|[0-9]+[eE]-[0-9]+)`)
+		for _, f := range []string{"math/quaternion/quaternion.go", "math/mat/matrix4x4.go", "math/trs/trs.go"} {
+			b, err := os.ReadFile(filepath.Join(repo, f))
+			if err != nil {
+				continue
+			}
+			for _, line := range strings.Split(string(b), "\n") {
+				if i := strings.Index(line, "//"); i >= 0 {
+					line = line[:i]
+				}
+				for _, m := range lit.FindAllStringSubmatch(line, -1) {
+					x, err := strconv.ParseFloat(m[1], 64)
+					if err == nil && x > 0 && x < 1 && x != 0.5 && x >= 1e-12 {
+						seen[x] = true
+					}
+				}
+			}
+		}
+	}
 	if len(seen) == 0 {
 		seen[0.999999], seen[0.000001] = true, true
 	}
@@ -168,6 +194,7 @@ func thresholds() []float64 {
 		ts = append(ts, t)
 	}
 	sort.Float64s(ts)
+	run.Extra["thresholds"] = ts
 	return ts
 }
 
@@ -256,6 +283,34 @@ func thresholdCases(r *hx.Rng) {
 					a := []float64{cs, sn * math.Cos(phi), sn * math.Sin(phi)}
 					doRot(rotDesc{A: a, B: neg(a)})
 				}
+			}
+		}
+	}
+	// FromTheta: axes that are nearly but not exactly unit, and axes whose squared length sits at a threshold's
+	// distance from 1 (or at the threshold itself), several angles and directions
+	angles := []float64{math.Pi / 2, math.Pi, 2.5, -1.2, 3.0, 0.3}
+	dirs := [][]float64{{0.6, 0.8, 0}, normalize3([]float64{1, 1, 1}), {0, 1, 0}, normalize3([]float64{-2, 0.5, 3})}
+	thetaAt := func(l2 float64) {
+		k++
+		dir := dirs[k%len(dirs)]
+		l := math.Sqrt(l2)
+		doTheta(thetaDesc{Theta: angles[k%len(angles)], Axis: []float64{dir[0] * l, dir[1] * l, dir[2] * l},
+			V: []float64{1 + float64(k%3), -2, 0.5 * float64(k%5)}})
+	}
+	for _, rel := range relDistances {
+		thetaAt(1 + rel)
+		thetaAt(1 - rel)
+	}
+	for _, t := range thresholds() {
+		if t >= 0.5 {
+			continue
+		}
+		for _, rel := range []float64{1e-9, 1e-6, 1e-3} {
+			for _, side := range []float64{-1, 1} {
+				x := t * (1 + side*rel)
+				thetaAt(1 + x)
+				thetaAt(1 - x)
+				thetaAt(x)
 			}
 		}
 	}
@@ -437,6 +492,17 @@ func generated(r *hx.Rng, i int) {
 		}
 		if dot3(axis, axis) < 0.01 {
 			axis = []float64{0, 0, 1}
+		}
+		if r.Chance(1, 3) { // nearly unit: |axis|^2 = 1 +- x, x around a threshold or a small relative distance
+			x := hx.Pick(r, relDistances)
+			if r.Bool() {
+				x = hx.Pick(r, thresholds()) * (1 + (r.Float()*2-1)*1e-3)
+			}
+			if x < 0.5 {
+				u := unit(r)
+				l := math.Sqrt(1 + x*float64(1-2*r.Intn(2)))
+				axis = []float64{u[0] * l, u[1] * l, u[2] * l}
+			}
 		}
 		doTheta(thetaDesc{Theta: (r.Float()*2 - 1) * 2 * math.Pi, Axis: axis, V: floats(r, 3, 4)})
 	case 5: // TRS
